@@ -184,10 +184,13 @@ def unescapeStr (q : Char) (s : List Char) : List Char :=
 /-- CPython refuses to convert digit strings longer than this (sys.get_int_max_str_digits) -/
 def intMaxStrDigits : Nat := 4300
 
+def stripMinus : List Char → List Char
+  | '-' :: ds => ds
+  | ds => ds
+
 /-- value of a NUMERIC_VALUE token; `none` = over the digit limit (F7: template error) -/
 def numValue (s : List Char) : Option Int :=
-  let digits := match s with | '-' :: ds => ds | ds => ds
-  if intMaxStrDigits < digits.length then none else parseIntLit s
+  if intMaxStrDigits < (stripMinus s).length then none else parseIntLit s
 
 def boolValue (s : List Char) : Bool := s = "true".toList ∨ s = "True".toList
 
